@@ -43,7 +43,7 @@ def _patches(valid='all'):
     return make
 
 
-def body(ctx, conv, shape, bounds, layout, nan_cells=None, mesh_opts=None, mode='name', coord_dtype=None):
+def body(ctx, conv, shape, bounds, layout, nan_cells=None, mesh_opts=None, mode='name', coord_dtype=None, lon_transposed=False):
     import xarray
     probe = {'cf1d': ('y', 'x'), 'cf2d': ('y', 'x'), 'shoc_simple': ('j', 'i'), 'shoc_standard': ('j_centre', 'i_centre'), 'ugrid': ('nface',)}[conv]
     gshape = shape if conv != 'ugrid' else (len(pipeline.builders.MESHES[shape][1]),)
@@ -71,6 +71,14 @@ def body(ctx, conv, shape, bounds, layout, nan_cells=None, mesh_opts=None, mode=
         data['elsewhere'] = (other_grid[0], numpy.arange(int(numpy.prod(other_grid[1])), dtype=float).reshape(other_grid[1]))
     P = pipeline.build(ctx, conv, shape, bounds=bounds, nan_cells=nan_cells, data=data, mesh_opts=mesh_opts, coord_dtype=coord_dtype)
     cv, ds = P.convention, P.ds
+    if lon_transposed:
+        # the longitude variable stored (x, y) next to a latitude stored (y, x): the grid is (y, x) all the same
+        lonv = ds['lon']
+        was_coord = 'lon' in ds.coords
+        ds = ds.drop_vars('lon').assign(lon=(lonv.dims[::-1], lonv.values.T, dict(lonv.attrs)))
+        ds = ds.set_coords('lon') if was_coord else ds
+        P.ds = ds
+        cv = type(cv)(ds)
     polygons = cv.polygons
     N = P.ncells
     present = [n for n in range(N) if polygons[n] is not None]
@@ -140,6 +148,11 @@ def body(ctx, conv, shape, bounds, layout, nan_cells=None, mesh_opts=None, mode=
             ctx.check(kw.get('transform') is marker, 'user supplied transform passes through')
         else:
             ctx.check(coll.get_transform() is marker, 'user supplied transform passes through')
+        # limits given by the caller are the limits, also when one of them is zero
+        for given in ((0.0, 4.0), (-3.0, 0.0), (0, 0.5)):
+            c2 = cv.make_poly_collection('temp', clim=given)
+            _, _, clim2, _ = inspect(c2)
+            ctx.check(And(same(clim2[0], float(given[0])), same(clim2[1], float(given[1]))), 'user supplied colour limits pass through, zero included')
         try:
             cv.make_poly_collection('temp', array=arr)
             ctx.check(False, 'data_array together with array is refused with TypeError')
@@ -280,6 +293,9 @@ def cases(tier):
                 yield Case(f'{conv}:{shape[0]}x{shape[1]}:{bounds}:nan{nm}:{layout}:{mode}', body,
                            dict(conv=conv, shape=shape, bounds=bounds, layout=layout, nan_cells=nan_cells, mode=mode),
                            patches=_patches(), max_paths=5000, split=8)
+    yield Case('cf2d:2x3:stored:nan0:plain:quiver:longitude-stored-transposed', body,
+               dict(conv='cf2d', shape=(2, 3), bounds='stored', layout='plain', nan_cells=(), mode='quiver', lon_transposed=True),
+               patches=_patches(), max_paths=5000, split=8)
     # whole-degree axes stored in an integer type (see pipeline.int_coord_array: witness strength)
     for mode in ('name', 'quiver'):
         yield Case(f'cf1d:2x3:none:nan0:plain:{mode}:int32-coordinates', body,
